@@ -30,7 +30,7 @@ def replay_file(path):
     if kind == "harness":
         r = fw.native_run_harness([{"harness": data["harness"], "params": data["params"], "overrides": data.get("overrides")}])[0]
         print(json.dumps(r))
-        fails = r["outcome"] in ("violation", "exception")
+        fails = r["outcome"] in ("violation", "exception", "timeout")
     elif kind == "native":
         r = fw.native_call(data["script"], {"replay": data["payload"]})
         print(json.dumps(r)[:2000])
@@ -186,7 +186,7 @@ def run(prop, tier, seed, args):
         for r, ob in pending_replays:
             nat = next(it) if "params" in ob else {"outcome": "not-materialised", "detail": ob.get("materialize_error", "")}
             fd = fw.match_finding(findings, ob["ident"])
-            reproduced = nat["outcome"] in ("violation", "exception")
+            reproduced = nat["outcome"] in ("violation", "exception", "timeout")
             data = {"kind": "harness", "obligation": ob["ident"], "harness": r["harness"], "case": r["case"], "params": ob.get("params"),
                     "overrides": r.get("overrides") or getattr(mod, "NATIVE_OVERRIDES", {}),
                     "model": ob.get("model"), "observed": nat, "solver": f"{ob['backend']}: sat (counter-model above); note={ob['note']}"}
